@@ -55,7 +55,16 @@ def fit_spec(spec):
         elif fam == "hourly":
             from opendsm.eemeter.models.hourly.model import HourlyModel
             from opendsm.eemeter.models.hourly.data import HourlyBaselineData, HourlyReportingData
-            hb = HourlyBaselineData(synth_hourly(days=365, seed=spec["meter_seed"]), is_electricity_data=True)
+            hdf = synth_hourly(days=365, seed=spec["meter_seed"])
+            if spec.get("edge_gaps"):
+                # gaps close to both ends of the series and partial first / last days: the gap filler looks a day and a week back and
+                # ahead, i.e. beyond the ends of the series
+                hdf.iloc[7:15, 1] = np.nan
+                hdf.iloc[30:33, 0] = np.nan
+                hdf.iloc[-20:-12, 1] = np.nan
+                hdf.iloc[-40:-37, 0] = np.nan
+                hdf = hdf.iloc[5:-3]
+            hb = HourlyBaselineData(hdf, is_electricity_data=True)
             settings = {} if spec.get("seed") is None else {"seed": spec["seed"]}
             if spec.get("adaptive"):
                 settings["elasticnet"] = dict(adaptive_weights=True, adaptive_weight_max_iter=5, adaptive_weight_tol=1e-3)
